@@ -120,7 +120,10 @@ func runC17(c *vk.Ctx) {
 			}
 			ll.Close()
 			if len(h) >= 2 {
-				c17LongLivedPersisted(c, key, a, cfg, h, vk.Pick(c.RNG(key+"/llp"), refs))
+				rl := c.RNG(key + "/llp")
+				for _, pos := range []int{len(h), 0, rl.Range(1, len(h)-1)} {
+					c17LongLivedPersisted(c, key, a, cfg, h, vk.Pick(rl, refs), pos)
+				}
 			}
 		}
 		for _, drv := range []string{"long", "mem", "fs"} {
@@ -308,61 +311,100 @@ func whatDiffers(s1, s2 *app.StateSnap, c1, c2 *app.CacheSnap) string {
 }
 
 // c17LongLivedPersisted: one engine with a persister serves the whole history and saves at the end (the way
-// engine.Loop runs a session). A refused input as the last request must not change what gets stored: the stored
-// snapshot equals that of the same history without the refused request.
-func c17LongLivedPersisted(c *vk.Ctx, key string, a *app.App, cfg app.Config, hist []string, rin string) {
-	run := func(withRefused bool) (*app.StateSnap, *app.CacheSnap, string, bool) {
+// engine.Loop runs a session). A refused input at any position - first request, in between, last before Finish -
+// must change neither the answers to the accepted requests nor what gets stored.
+func c17LongLivedPersisted(c *vk.Ctx, key string, a *app.App, cfg app.Config, hist []string, rin string, pos int) {
+	type result struct {
+		outs []string
+		st   *app.StateSnap
+		ca   *app.CacheSnap
+		lerr string
+		ok   bool
+	}
+	run := func(refusedAt int) result {
+		var res result
 		b, err := app.NewBackend("mem")
 		if err != nil {
-			return nil, nil, err.Error(), false
+			return res
 		}
 		defer b.Cleanup()
 		store, _ := b.Handle()
-		res := app.NewRecRes(a)
+		rr := app.NewRecRes(a)
 		ctx := context.Background()
-		ok := true
+		res.ok = true
 		pv, _ := vk.Guard(func() {
-			en := engine.NewEngine(cfg.Engine(), res).WithPersister(persist.NewPersister(store))
-			for _, in := range hist {
-				cont, err := en.Exec(ctx, []byte(in))
-				if err != nil {
-					ok = false
-					break
+			en := engine.NewEngine(cfg.Engine(), rr).WithPersister(persist.NewPersister(store))
+			refuse := func() {
+				if _, err := en.Exec(ctx, []byte(rin)); err == nil {
+					res.ok = false // not refused: other legs report that
 				}
+			}
+			for k, in := range hist {
+				if k == refusedAt {
+					refuse()
+				}
+				cont, err := en.Exec(ctx, []byte(in))
 				var buf bytes.Buffer
-				if _, err := en.Flush(ctx, &buf); err != nil || !cont {
-					ok = false
+				var ferr error
+				if err == nil {
+					_, ferr = en.Flush(ctx, &buf)
+				}
+				res.outs = append(res.outs, fmt.Sprintf("cont=%v exec=%s flush=%s out=%q", cont, app.ErrClass(errString(err)), app.ErrClass(errString(ferr)), buf.String()))
+				if err != nil || ferr != nil || !cont {
 					break
 				}
 			}
-			if ok && withRefused {
-				if _, err := en.Exec(ctx, []byte(rin)); err == nil {
-					ok = false // not refused: other legs report that
-				}
+			if refusedAt == len(hist) {
+				refuse()
 			}
 			if err := en.Finish(ctx); err != nil {
-				ok = false
+				res.outs = append(res.outs, "finish: "+err.Error())
 			}
 		})
-		if pv != nil || !ok {
-			return nil, nil, "", false
+		if pv != nil {
+			res.outs = append(res.outs, fmt.Sprintf("panic: %v", pv))
 		}
 		pr := app.NewPerRequest(a, cfg, b)
-		st, ca, errs := pr.ReadStored()
-		return st, ca, errs, true
+		res.st, res.ca, res.lerr = pr.ReadStored()
+		return res
 	}
-	s0, c0, e0, ok0 := run(false)
-	if !ok0 {
-		return
-	}
-	s1, c1, e1, ok1 := run(true)
-	if !ok1 {
+	r0 := run(-1)
+	r1 := run(pos)
+	if !r0.ok || !r1.ok {
 		return
 	}
 	c.EvalN(1, 1)
 	c.Count("long_lived_persisted_pairs", 1)
-	if e0 != e1 || !s0.Equal(s1) || !c0.Equal(c1) {
-		c.Violate("refused-last-input-changes-what-is-saved:"+refusedClass(rin), fmt.Sprintf("one engine with a persister serves %v and saves at the end: stored %+v (load error %q); with the refused input %s as last request: stored %+v (load error %q)", printableHist(hist), s0, e0, printable(rin), s1, e1), key,
-			map[string]interface{}{"app": a.Describe(), "config": cfg, "history": hist, "refused_input": printable(rin)})
+	where := "in between"
+	if pos == 0 {
+		where = "first"
+	} else if pos == len(hist) {
+		where = "last"
 	}
+	csd := map[string]interface{}{"app": a.Describe(), "config": cfg, "history": hist, "refused_input": printable(rin), "position": pos}
+	if strings.Join(r0.outs, "\n") != strings.Join(r1.outs, "\n") {
+		k := 0
+		for k < len(r0.outs) && k < len(r1.outs) && r0.outs[k] == r1.outs[k] {
+			k++
+		}
+		w, g := "(none)", "(none)"
+		if k < len(r0.outs) {
+			w = r0.outs[k]
+		}
+		if k < len(r1.outs) {
+			g = r1.outs[k]
+		}
+		c.Violate("long-lived-persisted:later-request-differs:"+refusedClass(rin)+":"+where, fmt.Sprintf("one engine with a persister, refused input %s as %s request: step %d answers %s, without the refused input %s", printable(rin), where, k, g, w), key, csd)
+		return
+	}
+	if r0.lerr != r1.lerr || !r0.st.Equal(r1.st) || !r0.ca.Equal(r1.ca) {
+		c.Violate("refused-last-input-changes-what-is-saved:"+refusedClass(rin), fmt.Sprintf("one engine with a persister serves %v and saves at the end: stored %+v (load error %q); with the refused input %s at position %d: stored %+v (load error %q)", printableHist(hist), r0.st, r0.lerr, printable(rin), pos, r1.st, r1.lerr), key, csd)
+	}
+}
+
+func errString(err error) string {
+	if err == nil {
+		return ""
+	}
+	return err.Error()
 }
